@@ -299,3 +299,39 @@ def shrink(src, conf, pred, budget=6000):
         words = greedy(words, lambda p: b"".join(p), lambda ps: [(i, i + 1) for i in range(len(ps)) if ps[i].strip()])
         cur = b"".join(words)
     return cur
+
+
+# ------------------------------------------------------------------ the extracted model
+
+FIELD_ORDER = [n for n, _, _, _ in OPTIONS]
+
+
+def model_conf(c):
+    f = full(c)
+    out = []
+    for n in FIELD_ORDER:
+        v = f[n]
+        out.append(("1" if v else "0") if isinstance(v, bool) else str(v))
+    return ",".join(out)
+
+
+def tok_str(t):
+    if t["k"] == "C":
+        return "C:%s:%s" % ("1" if t["lf"] else "0", t["lit"].encode("utf-8", "surrogateescape").hex())
+    return "T:%s:%s" % (t["ty"], t["lit"].encode("utf-8", "surrogateescape").hex())
+
+
+def model_norm(model_exe, pairs, cmd="norm", hang_s=60):
+    """pairs: [(config dict, raw fmtlex reply string)] -> replies of the extracted model"""
+    reqs = ["%s %s %s" % (cmd, model_conf(c), toks) for c, toks in pairs]
+    return V.run_batch([model_exe], reqs, hang_s=hang_s, mem_kb=8_000_000)
+
+
+def lex_raw(sources, hang_s=20):
+    """raw fmtlex replies (strings) - what is passed to the model unchanged"""
+    return V.run_batch([IMPL, "fmtlex"], [s.hex() for s in sources], hang_s=hang_s, max_failures=40)
+
+
+def strip_flags(raw):
+    """token string without the line-feed bit of comments (layout, not compared)"""
+    return " ".join(("C:_:" + t[4:]) if t.startswith("C:") else t for t in raw.split(" ") if t)
